@@ -77,7 +77,9 @@ model('info.SectionType',
                  Clause('self.datatype is not None', label='RI-has-a-section-datatype'),
                  Clause('forall(lambda i, j: implies(0 <= i and i < j and j < len(self._children), '
                         'self._children[i][1].attribute != self._children[j][1].attribute))',
-                        label='RI-attributes-distinct')])
+                        label='RI-attributes-distinct'),
+                 Clause('forall(lambda i: implies(0 <= i and i < len(self._children), child_ready(self._children[i][1])))',
+                        label='RI-children-convertible')])
 
 contract('TypeLike.isabstract', self_type='TypeLike', returns='bool', pure=True,
          ensures=[Clause("result == isa(self, 'info.AbstractType')", carries='C12', label='abstract-iff-AbstractType')])
@@ -118,7 +120,8 @@ contract('info.SectionType.getsectioninfo', params={'type_': 'str', 'name': 'Opt
 # ---- defaults ----------------------------------------------------------------------------------------------------
 import contracts.matcher_types      # Slot / Item / MItem
 model('info.BaseKeyInfo', fields={'_finished': 'bool', '_rawdefaults': 'Slot', '_default': 'Slot'},
-      late_fields=('_default',))
+      late_fields=('_default',),
+      invariant=[Clause('self.datatype is not None', label='keys-have-a-datatype')])
 contract('info.BaseInfo.getdefault', returns='Slot', pure=True,
          ensures=[Clause('result == default_of(self)', carries='C02,C13', label='copy-of-the-declared-defaults')],
          notes='interface contract of the three getdefault() implementations; the result is a COPY '
@@ -151,6 +154,7 @@ KINFO = {'name': 'Opt[str]', 'datatype': 'Opt[Fun[dt]]', 'minOccurs': 'int', 'ma
 STORES = ('self.name == name and self.datatype == datatype and self.minOccurs == minOccurs and '
           'self.handler == handler and self.attribute == attribute')
 contract('info.BaseKeyInfo.__init__', params=dict(KINFO),
+         requires=[Clause('datatype is not None', label='keys-have-a-datatype')],
          ensures=[Clause(STORES + ' and self.maxOccurs == maxOccurs and not self._finished', carries='C10', label='stores-the-declaration'),
                   Clause('maxOccurs >= 1 and not (minOccurs > maxOccurs)', label='occurrence-bounds-consistent')],
          raises=[Raise('ZConfig.SchemaError', when='maxOccurs < 1 or minOccurs > maxOccurs', carries='C10',
@@ -170,15 +174,19 @@ model('info.KeyInfo', fields={},
                  Clause("implies(self.name != '+', is_alt(self._default, 'none') or is_alt(self._default, 'vi'))",
                         label='single-key-has-at-most-one-default'),
                  Clause("not (self.maxOccurs > 1)", label='single-valued'),
+                 Clause('key_kinds_ok(self, self._default)', label='defaults-are-collected-values-never-converted-ones'),
                  Clause("implies(self.name == '+', forall('str', lambda x: implies(x in alt(self._default, 'kmap'), "
                         "is_alt(alt(self._default, 'kmap')[x], 'vi'))))", label='one-default-per-key')])
 model('info.MultiKeyInfo', fields={},
       invariant=[Clause("(self.name == '+') == is_alt(self._default, 'kmap')", label='wildcard-multikey-has-a-default-map'),
                  Clause("implies(self.name != '+', is_alt(self._default, 'lst'))", label='multikey-has-a-default-list'),
+                 Clause('self.maxOccurs > 1', label='multi-valued'),
+                 Clause('key_kinds_ok(self, self._default)', label='defaults-are-collected-values-never-converted-ones'),
                  Clause("implies(self.name == '+', forall('str', lambda x: implies(x in alt(self._default, 'kmap'), "
                         "is_alt(alt(self._default, 'kmap')[x], 'lst'))))", label='list-of-defaults-per-key')])
 K5 = {k: v for k, v in KINFO.items() if k != 'maxOccurs'}
 contract('info.KeyInfo.__init__', params=dict(K5),
+         requires=[Clause('datatype is not None', label='keys-have-a-datatype')],
          ensures=[Clause(STORES + ' and self.maxOccurs == 1 and not self._finished', carries='C10', label='stores-the-declaration'),
                   Clause("implies(name == '+', is_alt(self._default, 'kmap') and len(alt(self._default, 'kmap')) == 0)",
                          carries='C10', label='wildcard-key-starts-with-an-empty-default-map'),
@@ -186,6 +194,7 @@ contract('info.KeyInfo.__init__', params=dict(K5),
                   Clause('is_alt(self._rawdefaults, \'none\')')],
          raises=[Raise('ZConfig.SchemaError', when='minOccurs > 1', carries='C10', label='bad-occurrence-bounds')])
 contract('info.MultiKeyInfo.__init__', params=dict(KINFO),
+         requires=[Clause('datatype is not None', label='keys-have-a-datatype'), Clause('maxOccurs > 1', label='multikeys-take-several-values')],
          ensures=[Clause(STORES + ' and self.maxOccurs == maxOccurs and not self._finished', carries='C10', label='stores-the-declaration'),
                   Clause("implies(name == '+', is_alt(self._default, 'kmap') and len(alt(self._default, 'kmap')) == 0)",
                          carries='C10', label='wildcard-multikey-starts-with-an-empty-default-map'),
@@ -224,6 +233,7 @@ contract('info.BaseKeyInfo.adddefault',
          requires=[Clause('key_default_shape(self)', label='defaults-have-the-shape-of-the-kind-of-key')],
          modifies=['self._default'],
          ensures=[Clause('key_default_shape(self)', label='defaults-keep-the-shape-of-the-kind-of-key'),
+                  Clause('key_kinds_ok(self, self._default)', label='defaults-stay-collected-values'),
                   Clause("not self._finished and (self.name == '+') == (key is not None)", carries='C10',
                          label='defaults-keyed-exactly-when-the-key-is-a-wildcard')],
          raises=[Raise('ZConfig.SchemaError', carries='C10',
@@ -232,7 +242,8 @@ contract('info.BaseKeyInfo.adddefault',
 contract('info.BaseKeyInfo.add_valueinfo', params={'vi': VI, 'key': 'Opt[str]'},
          requires=[Clause("(self.name == '+') == (key is not None)", label='keyed-iff-wildcard'),
                    Clause('key_default_shape(self)')],
-         modifies=['self._default'], ensures=[Clause('key_default_shape(self)')], raises=[Raise('ZConfig.SchemaError', carries='C10', label='duplicate')],
+         modifies=['self._default'], ensures=[Clause('key_default_shape(self)'), Clause('key_kinds_ok(self, self._default)')],
+         raises=[Raise('ZConfig.SchemaError', carries='C10', label='duplicate')],
          assumed=True, notes='abstract method: interface of KeyInfo.add_valueinfo / MultiKeyInfo.add_valueinfo (both proved)')
 
 RAWD = "(old(self._default) if is_alt(old(self._rawdefaults), 'none') else old(self._rawdefaults))"
@@ -354,7 +365,8 @@ contract('info.SectionType.__init__',
 NEWKEY = "(key is not None and key != '')"
 ATTR = 'val(info.attribute)'
 contract('info.SectionType._add_child', params={'key': 'Opt[str]', 'info': 'Ref[info.BaseInfo]'},
-         requires=[Clause("child_wf(key, info) and %s != ''" % ATTR, label='child-is-well-formed-and-has-an-attribute-name')],
+         requires=[Clause("child_wf(key, info) and %s != ''" % ATTR, label='child-is-well-formed-and-has-an-attribute-name'),
+                   Clause('child_ready(info)', label='a-key-has-a-datatype-and-unconverted-defaults')],
          modifies=['self._children', 'self._attrmap', 'self._keymap'],
          ensures=[Clause('self._children == old(self._children) + [(key, info)]', carries='C10,C11',
                          label='appended-in-document-order'),
@@ -374,7 +386,8 @@ contract('info.SectionType._add_child', params={'key': 'Opt[str]', 'info': 'Ref[
                        carries='C10', label='key-name-or-attribute-name-already-used-in-this-container')])
 contract('info.SectionType.addkey', params={'keyinfo': 'Ref[info.BaseKeyInfo]'},
          requires=[Clause("child_wf(keyinfo.name, keyinfo) and val(keyinfo.attribute) != ''",
-                          label='child-is-well-formed-and-has-an-attribute-name')],
+                          label='child-is-well-formed-and-has-an-attribute-name'),
+                   Clause('child_ready(keyinfo)', label='a-key-has-a-datatype-and-unconverted-defaults')],
          modifies=['self._children', 'self._attrmap', 'self._keymap'],
          ensures=[Clause('self._children == old(self._children) + [(keyinfo.name, keyinfo)]', carries='C10,C11',
                          label='key-appended-under-its-name')],
